@@ -779,6 +779,7 @@ void	psf_asciiheader_printf	(SF_PRIVATE *psf, const char *format, ...) ;
 /* Functions used when reading file headers. */
 
 int		psf_binheader_readf	(SF_PRIVATE *psf, char const *format, ...) ;
+sf_count_t	psf_binheader_tell	(SF_PRIVATE *psf) ;
 
 /* Functions used in the write function for updating the peak chunk. */
 
